@@ -37,6 +37,7 @@ def reset_keras():
   from qkeras import quantizers  # pylint: disable=import-outside-toplevel
   quantizers.set_internal_sigmoid("hard")
   tf.keras.backend.set_learning_phase(0)
+  tf.keras.backend.set_image_data_format("channels_last")
 
 
 def digest(*objs):
@@ -188,6 +189,14 @@ def tensor(shape, pattern, seed=0):
     v = ((((i * 7 + 3) % 15) - 7) / 7.0) * 1e-6
   elif pattern == "one_hot_max":
     v = ((((i * 3 + 1) % 11) - 5) / 50.0)
+  elif pattern in ("ladder_a", "ladder_b"):
+    # per-channel (last axis) magnitudes at powers of two whose exponents are where float32 exp/log round trips are
+    # inexact (|e| = 13, 15, 26, 30) next to exact ones: a data-dependent power-of-two scale must stay an exact power
+    exps = [13, -13, 15, -15, 26, 12] if pattern == "ladder_a" else [-26, 30, -30, -12, 14, -14]
+    c = shape[-1] if len(shape) else 1
+    base = np.where((((i * 7 + 3) % 15) - 7) < 0, -1.0, 1.0)     # unit magnitudes: the least-squares scale IS 2^e
+    v = base * np.array([2.0 ** exps[(j % c) % len(exps)] for j in range(n)])
+    seed = 0                     # the channel is the position in the last axis: no permutation
   elif pattern == "bell":
     from scipy.stats import norm  # pylint: disable=import-outside-toplevel
     v = norm.ppf((i + 0.5) / n) * 0.3
